@@ -159,7 +159,12 @@ def r17_1(ctx):
                         ok = got == {"Function", "Object"}
                         r.ob(key + " -> Function (call/construct signature) | Object", ok, C.mloc(rt, a), "direct inserts %s" % sorted(got))
                     elif alt in ("TsParenthesizedType", "TsOptionalType", "TsUnionType", "TsIntersectionType", "TsIndexedAccessType"):
-                        r.ob(key + " -> union of its parts", rec and not got, C.mloc(rt, a), "extends the accumulator with the recursive result" if rec and not got else "inserts %s / recursion: %s" % (sorted(got), rec))
+                        txt_a = expr_str(a["body"])
+                        narrowed = [w for w in (".filter(", ".retain(", ".contains(", ".intersection(", ".difference(") if w in txt_a]
+                        ok_u = rec and not got and not narrowed
+                        r.ob(key + " -> union of its parts", ok_u, C.mloc(rt, a),
+                             "extends the accumulator with the recursive result" if ok_u else
+                             ("the parts' types are filtered (%s) before they are added: a constructor some part allows is lost" % narrowed[0] if narrowed else "inserts %s / recursion: %s" % (sorted(got), rec)))
                     continue
                 if name == "type reference name" and alt in RECURSIVE_NAMES:
                     txt = expr_str(a["body"])
